@@ -263,6 +263,13 @@ func checkC17(p *Prog, r *Report) {
 		wireKeyOwnership(p, r, w17, "C17", "aol", []string{"x/aol/keeper.NewKeeper"}, "AOL data")
 		wireKeyOwnership(p, r, w17, "C17", "did", []string{"x/did/keeper.NewKeeper"}, "DID documents")
 		wireKeyOwnership(p, r, w17, "C17", "pnft", []string{"x/pnft/keeper.NewKeeper"}, "denoms and tokens")
+		// end-of-block processing cannot be halted by a deposit: the bank's BurnCoins panics for a module account without the
+		// Burner permission, inside the burn module's EndBlock
+		modC, _ := p.ConstVal(Rel("x/burn/types"), "ModuleName")
+		burnerC, _ := p.ConstVal(SDK+"/x/auth/types", "Burner")
+		perms, present := w17.MaccPerms[strings.Trim(modC, `"`)]
+		r.Check(present && has(perms, strings.Trim(burnerC, `"`)), "WIRE:C17:maccPerms[burn]∋burner", "the burn module account may burn (bank.BurnCoins panics otherwise — inside EndBlock)", p.Pos(w17.MaccPos), fmt.Sprint(perms),
+			fmt.Sprintf("maccPerms[%s] = %v lacks the Burner permission: the first deposit to the burn address makes x/burn's EndBlock panic in bank.BurnCoins, and the chain halts", modC, perms))
 	}
 	r.Explain = "Decided statically, over every hand-written module function reachable (definite edges) from the entry points an outsider controls — ValidateBasic/GetSigners/GetSignBytes of the 14 messages, the 14 message and 12 query handlers, KeyStore.Load/LoadByAddress/Save, the four modules' Begin/EndBlock and the hand-written proto/JSON codec callbacks of x/did/types: every panic site has a discharged obligation. P-explicit: explicit panics in GetSigners are unreachable for any message that passed the same type's ValidateBasic (accept ∧ panic-path-condition is unsatisfiable); calls to functions that may panic (Must*) need their precondition at the call site — compkey.MustEncode: every string component is a message field bounded <=255 by validation, or the call is dominated by a successful compkey.Encode of the same key; remaining Must* sites are discharged by a reasoned table (marshal of generated structs, unmarshal of what the same codec wrote). P-nil: every dereference of a pointer loaded from a nillable wire field or returned by a generated getter is dominated by a non-nil fact, directly, through an expanded predicate, or as a precondition discharged at every call site (depth 2). P-bounds: constant indexes need a dominating length fact, loop indexes the loop bound; P-lib: cipher.NewCTR needs len(iv) == block size, slices of pbkdf2.Key's result need the key length bound, constant regex patterns must compile. P-lib also covers: math.Int/Uint narrowing (needs IsInt64/IsUint64), big-integer and machine-integer division (non-zero divisor fact or constant), []byte→crypto key type conversions (pinned length or constant-length buffer). Thorough tier: the compiler's unproven bounds checks in scope must all be enumerated sites."
 	r.NotDec = []string{"panics inside the SDK/IAVL/protobuf on well-formed calls", "resource exhaustion (huge kdf parameters)", "gas-limit panics (converted to errors by baseapp)", "nil elements in repeated fields (gogoproto Unmarshal never produces them)"}
